@@ -5,13 +5,14 @@ applied to any samples it gives, at every pixel, the inverse Abel integral of th
 `D[0,0] = 2/π`, `D[0,1] = J(0,1) − 2/π` stand for.
 
 The inverse Abel integral `−(1/π) ∫_r^∞ P′(x) dx/√(x² − r²)` is taken along the line of sight (`x = √(r² + t²)`), where it is
-`−(1/π) ∫₀^∞ P′(ρ)/ρ dt` and has no singularity; the logarithms of Eq. (9) are the integrals of `1/ρ` over the shells
+`−(1/π) ∫₀^∞ P′(ρ)/ρ dt` and has no singularity (`invAbel_eq_textbook`, at the end, proves the two forms equal); the logarithms of Eq. (9) are the integrals of `1/ρ` over the shells
 (`Lemmas/AbelFrac.lean`, `Fint_one`).
 -/
 import PyAbel.Props.C10SPoly
 import PyAbel.Model.Dasch
 import PyAbel.Props.C02Rbasex
 import Mathlib.Analysis.SpecialFunctions.Integrals.Basic
+import Mathlib.MeasureTheory.Function.JacobianOneDim
 open MeasureTheory Set
 namespace PyAbel.C09
 open PyAbel PyAbel.C10
@@ -287,4 +288,56 @@ theorem twoPoint_axis_eq_invAbel (n : ℕ) (P : ℕ → ℝ) :
 example : invAbel (dPaxis 1 (fun _ => 1)) 0 = 2 / Real.pi := by
   rw [← twoPoint_axis_eq_invAbel]
   simp [sumRange, twoPointD]
+
+/-- the line of sight `t ↦ √(r² + t²)` maps `(0, ∞)` onto `(r, ∞)` -/
+theorem los_image (r : ℝ) (hr : 0 ≤ r) : (fun t => Real.sqrt (r ^ 2 + t ^ 2)) '' Ioi 0 = Ioi r := by
+  ext x
+  constructor
+  · rintro ⟨t, ht, rfl⟩
+    have ht0 : (0 : ℝ) < t := ht
+    show r < Real.sqrt (r ^ 2 + t ^ 2)
+    rw [Real.lt_sqrt hr]; nlinarith
+  · intro hx
+    have hx' : r < x := hx
+    have hd : 0 < x ^ 2 - r ^ 2 := by nlinarith
+    refine ⟨Real.sqrt (x ^ 2 - r ^ 2), Real.sqrt_pos.mpr hd, ?_⟩
+    show Real.sqrt (r ^ 2 + Real.sqrt (x ^ 2 - r ^ 2) ^ 2) = x
+    rw [Real.sq_sqrt hd.le, show r ^ 2 + (x ^ 2 - r ^ 2) = x ^ 2 by ring, Real.sqrt_sq (by linarith)]
+
+/-- **the line-of-sight form is the textbook inverse Abel integral**: `invAbel P′ r = −(1/π) ∫_r^∞ P′(x) / √(x² − r²) dx`
+    (substitution `x = √(r² + t²)`; no regularity of `P′` is needed — both sides are the same Lebesgue integral) -/
+theorem invAbel_eq_textbook (dP : ℝ → ℝ) (r : ℝ) (hr : 0 ≤ r) :
+    invAbel dP r = -(1 / Real.pi) * ∫ x in Ioi r, dP x / Real.sqrt (x ^ 2 - r ^ 2) := by
+  unfold invAbel Abel
+  rw [← los_image r hr]
+  have hd : ∀ t ∈ Ioi (0 : ℝ), HasDerivWithinAt (fun t => Real.sqrt (r ^ 2 + t ^ 2)) (t / Real.sqrt (r ^ 2 + t ^ 2)) (Ioi 0) t := by
+    intro t ht
+    have ht0 : (0 : ℝ) < t := ht
+    have hp : (0 : ℝ) < r ^ 2 + t ^ 2 := by positivity
+    have d2 : HasDerivAt (fun t : ℝ => r ^ 2 + t ^ 2) (2 * t) t := by
+      have := ((hasDerivAt_id t).pow 2).const_add (r ^ 2)
+      simpa using this
+    have d3 := d2.sqrt hp.ne'
+    refine (d3.congr_deriv ?_).hasDerivWithinAt
+    field_simp
+  have hinj : InjOn (fun t => Real.sqrt (r ^ 2 + t ^ 2)) (Ioi 0) := by
+    intro t1 h1 t2 h2 he
+    have h1' : (0 : ℝ) < t1 := h1
+    have h2' : (0 : ℝ) < t2 := h2
+    have e := congrArg (fun v => v ^ 2) he
+    simp only at e
+    rw [Real.sq_sqrt (by positivity), Real.sq_sqrt (by positivity)] at e
+    have hf : (t1 - t2) * (t1 + t2) = 0 := by ring_nf; linarith
+    rcases mul_eq_zero.mp hf with h | h <;> linarith
+  rw [integral_image_eq_integral_abs_deriv_smul measurableSet_Ioi hd hinj]
+  have hcongr : ∀ t ∈ Ioi (0 : ℝ), |t / Real.sqrt (r ^ 2 + t ^ 2)| • (dP (Real.sqrt (r ^ 2 + t ^ 2)) / Real.sqrt (Real.sqrt (r ^ 2 + t ^ 2) ^ 2 - r ^ 2))
+      = dP (Real.sqrt (r ^ 2 + t ^ 2)) / Real.sqrt (r ^ 2 + t ^ 2) := by
+    intro t ht
+    have ht0 : (0 : ℝ) < t := ht
+    have hp : (0 : ℝ) < r ^ 2 + t ^ 2 := by positivity
+    have hs : 0 < Real.sqrt (r ^ 2 + t ^ 2) := Real.sqrt_pos.mpr hp
+    rw [abs_of_pos (by positivity), Real.sq_sqrt hp.le, show r ^ 2 + t ^ 2 - r ^ 2 = t ^ 2 by ring, Real.sqrt_sq ht0.le, smul_eq_mul]
+    field_simp
+  rw [setIntegral_congr_fun measurableSet_Ioi hcongr]
+  ring
 end PyAbel.C09
